@@ -144,7 +144,7 @@ class Agg:
         self.violations = []
         self.known_hits = {}
         self.errors = []
-        self.digest = hashlib.sha256()
+        self.digests = []
         self.truncated = False
         self.extra = {}
 
@@ -160,7 +160,7 @@ class Agg:
             'distinct': self.distinct, 'samples': self.samples,
             'violations': self.violations, 'errors': self.errors,
             'known_hits': self.known_hits,
-            'digest': self.digest.hexdigest(), 'truncated': self.truncated,
+            'digests': self.digests, 'truncated': self.truncated,
             'extra': self.extra}
 
 
@@ -203,7 +203,7 @@ def worker(modname, base, lo, hi, tier, deadline):
         agg.distinct.add(h)
         for nt in res.get('nontrivial', ()):
             agg.nontrivial.add(nt if isinstance(nt, str) else h)
-        agg.digest.update(('%d:%s;' % (seed, res.get('digest', ''))).encode())
+        agg.digests.append((i, '%d:%s' % (seed, res.get('digest', ''))))
         if len(agg.samples) < 1 and res.get('nontrivial'):
             agg.samples.append(mod.sample(case, res))
         for v in res.get('violations', ()):
@@ -330,7 +330,7 @@ def run_check(mod, tier):
                         'trace': 'worker for block %d-%d died: %r'
                                  % (lo, hi, e)}]})
     tot = Agg()
-    digest = hashlib.sha256()
+    digests = []
     violations, errors = [], []
     for r in results:
         tot.evaluations += r.get('evaluations', 0)
@@ -352,8 +352,11 @@ def run_check(mod, tier):
         violations.extend(r.get('violations', []))
         errors.extend(r.get('errors', []))
         tot.truncated = tot.truncated or r.get('truncated', False)
-        digest.update(r.get('digest', '').encode())
+        digests.extend(r.get('digests', []))
 
+    digest = hashlib.sha256()
+    for _, dgs in sorted(digests):
+        digest.update((dgs + ';').encode())
     known = load_known()
     known_hit, new = {}, []
     known_counts = {}
